@@ -10,6 +10,7 @@ import (
 
 	"github.com/acquirecloud/golibs/kvs"
 	"github.com/acquirecloud/golibs/kvs/inmem"
+	kredis "github.com/acquirecloud/golibs/kvs/redis"
 	"github.com/acquirecloud/golibs/zverif/vsched"
 	"verifh/internal/ev"
 	"verifh/internal/kvh"
@@ -245,6 +246,12 @@ func job(sc scen, cfg vsched.Config) sdrv.Job {
 			vsched.WaitFor("mutator", func() bool { return mdone })
 			vsched.Sleep(250 * time.Millisecond) // more than two poll periods (<= 100ms each)
 			vsched.AwaitBlocked()
+			// a parked waiter holds nothing of the client between two polls: N waiters must not need N connections (any
+			// finite pool would then be exhausted by enough waiters, and the writers they wait for could not write)
+			if n := kredis.VerifConnsInUse(st); n != 0 && obs.problem == "" {
+				obs.psig = "waiter-holds-connection"
+				obs.problem = fmt.Sprintf("at quiescence (every remaining waiter parked between two polls) %d pooled connections of the client are checked out", n)
+			}
 		} else {
 			vsched.AwaitIdle()
 		}
